@@ -643,22 +643,52 @@ func checkFrontEndStatus(c *report.Ctx, want map[string]int64) map[string]int64 
 	if f == nil {
 		return nil
 	}
-	facts := an.NewFacts(f)
 	got := map[string]int64{}
 	bodies := map[string]bool{}
-	for _, b := range f.Blocks {
-		var errs []string
-		for _, ft := range facts.At(b) {
-			bo, ok := ft.Cond.(*ssa.BinOp)
-			if ok && bo.Op == token.EQL && ft.Val {
-				if g := an.GlobalOf(bo.Y); strings.HasPrefix(g, "L/rapidcore.Err") {
-					errs = append(errs, g)
+	// per sentinel: the blocks reached after the sandbox call when every test of its error is decided as for that
+	// sentinel (see assumeErrIs; arms merged by `case A, B:` keep no branch fact of their own)
+	inv := an.CallsTo(f, "M/cmd/aws-lambda-rie.Sandbox.Invoke")
+	type be struct {
+		b *ssa.BasicBlock
+		e string
+	}
+	var pairs []be
+	if len(inv) == 1 {
+		var sentinels []string
+		for e := range want {
+			sentinels = append(sentinels, e)
+		}
+		for _, g := range []string{"L/rapidcore.ErrAlreadyReserved", "L/rapidcore.ErrAlreadyInvocating", "L/rapidcore.ErrInternalServerError", "L/rapidcore.ErrInvokeTimeout", "L/rapidcore.ErrInitDoneFailed", "L/rapidcore.ErrInvokeDoneFailed"} {
+			if _, has := want[g]; !has {
+				sentinels = append(sentinels, g)
+			}
+		}
+		sort.Strings(sentinels)
+		for _, e := range sentinels {
+			skip := assumeErrIs(inv[0].Value(), e)
+			seen := map[*ssa.BasicBlock]bool{inv[0].Block(): true}
+			var walk func(b *ssa.BasicBlock)
+			walk = func(b *ssa.BasicBlock) {
+				if seen[b] {
+					return
+				}
+				seen[b] = true
+				pairs = append(pairs, be{b, e})
+				for _, sx := range b.Succs {
+					if !skip(b, sx) {
+						walk(sx)
+					}
+				}
+			}
+			for _, sx := range inv[0].Block().Succs {
+				if !skip(inv[0].Block(), sx) {
+					walk(sx)
 				}
 			}
 		}
-		if len(errs) != 1 {
-			continue
-		}
+	}
+	for _, pr := range pairs {
+		b, errs := pr.b, []string{pr.e}
 		for _, in := range b.Instrs {
 			if call, ok := in.(ssa.CallInstruction); ok {
 				if an.Callee(call) == "net/http.ResponseWriter.WriteHeader" {
